@@ -128,6 +128,9 @@ def check_scenario(prop, ops, preds, cut_at, sobs, res, meta, sid, reg_cache=Non
     for i, op in enumerate(ops):
         pr = m.apply(op)
         reg.note(m)
+        hk = hash(m.key())
+        if hk & 15 == 0:
+            res.states.add(hk)       # 1/16 sample of the distinct model states reached
         if i >= len(oobs):
             break
         if cut_at is not None and (i > cut_at or (i == cut_at and pr.cut_self)):
